@@ -385,6 +385,33 @@ def r5(ctx, prog):
     ctx.ob('C15.R5', '%s|wait-others' % f.name, ok, 'server-failure replies return without completing while other servers are outstanding', where=f.loc(f.body))
     c = prog.fn1(DNS + '::cancel')
     ctx.ob('C15.R5', '%s|cancel-erases' % c.name, bool(q.calls(c, callee=DNS + '::deleteRequest')) and not q.invokes(c), 'cancel only erases', where=c.loc(c.body))
+    # the registry itself: a lookup that got an id is registered (record stored with its callback, deadline armed, socket listening), and deleteRequest erases what it finds
+    rq = [g for g in prog.fn(DNS + '::request') if any(c.get('fn') == 'send' for c in g.calls())]
+    ad = prog.fn1(DNS + '::addRequest')
+    de = prog.fn1(DNS + '::deleteRequest')
+    if rq:
+        g = rq[0]
+        adds = q.calls(g, callee=DNS + '::addRequest')
+        idrets = [r for r in q.returns(g) if r.get('val') is not None and (g.s(g.strip_casts(r['val'])) or {}).get('k') == 'DeclRefExpr' and (g.s(g.strip_casts(r['val'])) or {}).get('dk') == 'Var']
+        okr = bool(adds) and bool(idrets) and all(any(g.cfg.dominates(q.pt(g, a), q.pt_or_term(g, r)) for a in adds) for r in idrets)
+        ctx.ob('C15.R5', '%s|registers' % g.name, okr, 'every return of a request id is preceded by addRequest()' if okr else
+               'request() hands out an id without registering the lookup: neither a reply nor the time-out ever reaches its callback', where=g.loc(g.body))
+    store = [st for st in ad.stmts if st and st['k'] in ('BinaryOperator', 'CXXOperatorCallExpr') and st.get('op') == '=' and 'requests_' in ad.path(st['ch'][0] if st['k'] == 'BinaryOperator' else st.get('obj', -1))] + \
+            [c for c in ad.calls() if c.get('fn') in ('emplace', 'insert') and c.get('obj') is not None and (ad.field_of(c['obj']) or '').endswith('requests_')]
+    cbset = [a for a, rhs in q.assigns(ad, 'Request::cb')]
+    tadd = [c for c in ad.calls() if c.get('fn') == 'add' and c.get('obj') is not None and (ad.field_of(c['obj']) or '').endswith('timeout_monitor_')]
+    lis = [c for c in ad.calls() if c.get('fn') == 'enable' and c.get('obj') is not None and (ad.field_of(c['obj']) or '').endswith('udp_')]
+    allp = lambda xs: bool(xs) and not ad.cfg.exists_path(ad.cfg.entry_point(), 'exit', avoid=q.pts(ad, xs), src_inclusive=True)
+    oka = allp(store) and allp(cbset) and allp(tadd) and bool(lis) and (not store or not cbset or all(any(ad.cfg.dominates(q.pt(ad, c_), q.pt(ad, s_)) for c_ in cbset) for s_ in store))
+    ctx.ob('C15.R5', '%s|complete' % ad.name, oka, 'addRequest stores the record with its callback, arms the deadline and has the socket listening' if oka else
+           'addRequest does not on every path %s' % ', '.join(w for w, okx in (('store the record in requests_', allp(store)), ('set the callback before storing', allp(cbset)),
+                                                                              ('arm the deadline (timeout_monitor_.add)', allp(tadd)), ('enable the socket for the first request', bool(lis))) if not okx),
+           where=ad.loc(ad.body))
+    ers = [c for c in de.calls() if c.get('fn') == 'erase' and c.get('obj') is not None and (de.field_of(c['obj']) or '').endswith('requests_')]
+    trues = [r for r in q.returns(de) if q.return_const(de, r) == 1]
+    okd = bool(ers) and bool(trues) and all(any(de.cfg.dominates(q.pt(de, e), q.pt_or_term(de, r)) for e in ers) for r in trues)
+    ctx.ob('C15.R5', '%s|erases' % de.name, okd, 'deleteRequest erases the record it found before reporting success' if okd else
+           'deleteRequest reports success without erasing the record: a duplicate reply (or the time-out after a reply) invokes the callback a second time', where=de.loc(de.body))
     # non-reply packets and unknown ids return before any parsing side effect
     parse_calls = [st for st in f.calls() if st.get('callee', '').endswith('FetchDomain')]
     rb = reply_bit_test(f)
@@ -624,6 +651,112 @@ def _conjuncts(f, e):
     return [e]
 
 
+def r13(ctx, prog):
+    ctx.rule('C15.R13', 'A4 record and result discipline: (a) what is reported for an answer record was read from that record\'s data — the read that last defines the reported value lies '
+             'after the read of the record\'s length field, in the same iteration; (b) every branch of the record-type dispatch consumes the record data (a read or a skip), so the '
+             'next record starts where this one ends; (c) a byte order changed for one field is restored before the iteration ends; (d) on every way to the user callback other than '
+             'the success path, Result::status has been assigned a non-success value', floor=6)
+    f, fs = parse_funcs(prog)
+    n = 0
+    # the record-length read: fetch(an_len)
+    lenreads = [c for c in f.calls() if c.get('cls') == DES and c.get('fn') in ('fetch', 'fetchPOD') and c.get('args') and f.path(c['args'][0]).endswith('_len')]
+    if not lenreads:
+        raise AnalysisBroken('onUdpRecv: the read of the record length was not found')
+    lr = lenreads[0]
+    lrp = q.pt(f, lr)
+    sinks = [c for c in f.calls() if c.get('fn') in ('push_back', 'emplace_back') and 'obj' in c and any(f.path(c['obj']).endswith(x) for x in ('a_vec', 'cname_vec'))]
+    ex = extractions(f)
+    # "after the length read, in the same iteration": reachable from it without going round the loop (the length read sits in a short-circuit chain, so it does
+    # not dominate what follows syntactically; the `if (!is_ok) break` behind the chain is what makes it a must — C15.R2 checks that part)
+    loop = [st for st in f.stmts if st and st['k'] == 'ForStmt' and lr['i'] in set(f.walk(st['i']))]
+    head = [f.cfg.point_of(loop[-1]['cond'])] if loop and loop[-1].get('cond') is not None else []
+    def after_len(p_):
+        return p_ is not None and f.cfg.exists_path(lrp, p_, avoid=[h for h in head if h])
+    for s_ in sinks:
+        n += 1
+        sp = q.pt(f, s_)
+        # variables the reported value is built from (through local initialisers), and the reads that define them
+        deps, work, seen = set(), [x for a in s_.get('args', []) for x in f.walk(a)], set()
+        while work:
+            x = work.pop()
+            sx = f.stmts[x]
+            if sx['k'] == 'DeclRefExpr' and sx.get('dk') == 'Var' and sx.get('d') not in seen:
+                seen.add(sx['d'])
+                deps.add(sx['d'])
+                dd, ds = decl_of(f, sx['d'])
+                if dd and 'init' in dd:
+                    work.extend(f.walk(dd['init']))
+        reads = [(st, d) for st, d, x, kind in ex if d in deps]
+        for c in f.calls():     # names are read through the helper, into its out-parameter
+            if (c.get('callee') or '').endswith('FetchDomain') and len(c.get('args', [])) >= 2:
+                a1 = f.s(f.strip_casts(c['args'][1]))
+                if a1 is not None and a1['k'] == 'DeclRefExpr' and a1.get('d') in deps:
+                    reads.append((c, a1['d']))
+        # payload reads: after the length read, dominating the sink
+        fresh = [st for st, d in reads if after_len(q.pt(f, st)) and f.cfg.dominates(q.pt(f, st), sp)]
+        ok = bool(fresh)
+        ctx.ob('C15.R13', '%s|payload-read@%s' % (f.name, f.path(s_['obj']).split('.')[-1]), ok, 'the reported value is read from the record data (after its length field, before it is reported)' if ok else
+               'nothing read from this record\'s data (after %s) feeds what is pushed into %s: the value reported is a stale or default one — an address or name that is not encoded in '
+               'this record' % (f.path(lr['args'][0]), f.path(s_['obj']).split('.')[-1]), where=f.loc(s_['i']))
+    # (b) every branch of the type dispatch consumes data
+    typ = None
+    for st in f.stmts:
+        if st and st['k'] == 'IfStmt' and st.get('cond') is not None and any(f.stmts[x]['k'] == 'DeclRefExpr' and (f.stmts[x].get('n') or '').endswith('_type') for x in f.walk(st['cond'])) and \
+                after_len(f.cfg.point_of(st['cond'])):
+            typ = st if typ is None else typ
+    if typ is None:
+        raise AnalysisBroken('onUdpRecv: the record-type dispatch was not found')
+    def branches(ifst):
+        kids = [c for c in ifst['ch'] if c != ifst.get('cond')]
+        out = []
+        if kids:
+            out.append(kids[0])
+        if ifst.get('else') is not None:
+            e = f.s(ifst['else'])
+            if e is not None and e['k'] == 'IfStmt':
+                out += branches(e)
+            else:
+                out.append(ifst['else'])
+        else:
+            out.append(None)
+        return out
+    for bi, b_ in enumerate(branches(typ)):
+        n += 1
+        consumed = b_ is not None and any(f.stmts[x]['k'] in q.CALL_KINDS and ((f.stmts[x].get('cls') == DES and f.stmts[x].get('fn') in ('fetch', 'fetchPOD', 'skip', 'fetchNoCopy')) or
+                                                                              (f.stmts[x].get('callee') or '').endswith('FetchDomain')) for x in f.walk(b_))
+        ctx.ob('C15.R13', '%s|branch%d-consumes' % (f.name, bi), consumed, 'this record-type branch reads or skips the record data' if consumed else
+               'a branch of the record-type dispatch leaves the record data unread: the next iteration parses the middle of this record as a new record and reports what it finds there',
+               where=f.loc(b_ if b_ is not None else typ['i']))
+    # (c) byte order restored
+    sets = [c for c in f.calls() if c.get('fn') == 'setEndian' and c.get('cls') == DES]
+    changed = [c for c in sets if (f.s(f.strip_casts(c['args'][0])) or {}).get('k') != 'DeclRefExpr' or (f.s(f.strip_casts(c['args'][0])) or {}).get('dk') != 'Var']
+    restores = [c for c in sets if c not in changed]
+    for c in changed:
+        n += 1
+        ok = bool(restores) and q.must_follow(f, q.pt(f, c), q.pts(f, restores))
+        ctx.ob('C15.R13', '%s|endian-restored@%s' % (f.name, f.loc(c['i']).split(':')[-1]), ok, 'the byte order changed for this field is put back on every path' if ok else
+               'the byte order is changed here and not restored on every path: every later 16/32-bit field of the datagram is read byte-swapped', where=f.loc(c['i']))
+    # (d) non-success status
+    def status_rule(g, what):
+        invs = q.invokes(g, 'cb')
+        asg = [a for a, rhs in q.assigns(g, 'Result::status') if 'kSuccess' not in g.path(rhs)]
+        return invs, asg
+    t = prog.fn1(DNS + '::onRequestTimeout')
+    invs, asg = status_rule(t, 'timeout')
+    n += 1
+    ok = bool(invs) and bool(asg) and all(any(t.cfg.dominates(q.pt(t, a), q.pt(t, i)) for a in asg) for i in invs)
+    ctx.ob('C15.R13', '%s|status' % t.name, ok, 'the time-out completion carries a non-success status' if ok else
+           'the time-out handler invokes the callback without having set Result::status: a lookup that timed out is reported as a success with no records', where=t.loc(t.body))
+    # error replies: every path to the callback that does not pass the success branch assigns a non-success status
+    invs, asg = status_rule(f, 'error reply')
+    succ_pts = [f.cfg.point_of(x) for x in f.walk(typ['i']) if f.cfg.point_of(x) is not None][:1]
+    for i in invs:
+        n += 1
+        leak = f.cfg.exists_path(f.cfg.entry_point(), q.pt(f, i), avoid=q.pts(f, asg) + [lrp] + q.pts(f, [c for c in f.calls() if c.get('cls') == DES and c.get('fn') == 'fetch' and f.path(c['args'][0]).endswith('_count')]))
+        ctx.ob('C15.R13', '%s|error-status' % f.name, not leak, 'every way to the callback either parsed the records or set a non-success status' if not leak else
+               'a reply with a non-zero response code reaches the callback without Result::status being set: a server error is reported as a success with no records', where=f.loc(i['i']))
+
+
 def run(ctx):
     prog = extract('ALL' if ctx.tier == 'thorough' else SCOPE)
     ctx.guard(r1, ctx, prog)
@@ -637,6 +770,7 @@ def run(ctx):
     ctx.guard(r10, ctx, prog)
     ctx.guard(r11, ctx, prog)
     ctx.guard(r12, ctx, prog)
+    ctx.guard(r13, ctx, prog)
     ctx.guard(harden.run, ctx, prog, 'C15.R8', [prog.fn1(DNS + '::onUdpRecv')],
               lambda g: g.file.startswith(MODULES + '/network/') or g.file.startswith(MODULES + '/util/'), 'DNS datagram path')
     return prog
